@@ -317,3 +317,71 @@ Proof.
       cbn [replay]. destruct (N.leb_spec k (len (wb_view w))); [|lia].
       rewrite <- Hv1. exact Hrep.
 Qed.
+
+(* ---- the provided Buf methods a transport may use instead (defaults, not overridden) ---- *)
+Lemma wb_chunks_vectored_law w :
+  wb_inv w ->
+  exists sl, wb_chunks_vectored w = Ok sl /\
+    match sl with
+    | [] => wb_view w = []
+    | [c] => c <> [] /\ exists rest, wb_view w = c ++ rest
+    | _ => False
+    end.
+Proof.
+  intros Hinv. unfold wb_chunks_vectored. rewrite wb_remaining_law by exact Hinv.
+  destruct (N.eqb_spec (len (wb_view w)) 0) as [E|E].
+  - exists []. split; [reflexivity|]. apply len_nil_iff. exact E.
+  - destruct (wb_chunk_law w Hinv) as (c & rest & Hc & Hv & Hnz). rewrite Hc. exists [c]. split; [reflexivity|].
+    split; [|exists rest; exact Hv]. apply Hnz. intros E'. rewrite E' in E. apply E. reflexivity.
+Qed.
+
+Lemma firstn_plus {A} (a b : nat) (l : list A) : firstn (a + b) l = firstn a l ++ firstn b (skipn a l).
+Proof.
+  revert l. induction a as [|a IH]; intros l; cbn [Nat.add firstn skipn app]; [reflexivity|].
+  destruct l as [|x l]; [destruct b; reflexivity|]. cbn [firstn skipn app]. rewrite IH. reflexivity.
+Qed.
+
+Lemma wb_copy_loop_exact fuel :
+  forall left w, wb_inv w -> left <= len (wb_view w) -> left <= N.of_nat fuel ->
+    exists w', wb_copy_loop fuel left w = Ok (firstn (N.to_nat left) (wb_view w), w') /\
+               wb_view w' = skipn (N.to_nat left) (wb_view w) /\ wb_inv w'.
+Proof.
+  induction fuel as [|f IH]; intros left w Hinv Hle Hfuel.
+  - assert (left = 0) by lia. subst. exists w. cbn. auto.
+  - cbn [wb_copy_loop]. destruct (N.eqb_spec left 0) as [->|Hnz]; [exists w; cbn; auto|].
+    destruct (wb_chunk_law w Hinv) as (c & rest & Hc & Hv & Hne). rewrite Hc.
+    assert (Hvne : wb_view w <> []).
+    { intros E. rewrite E in Hle. unfold len in Hle. cbn in Hle. lia. }
+    specialize (Hne Hvne).
+    assert (Hlc : 1 <= len c) by (destruct c; [congruence|unfold len; cbn; lia]).
+    set (n := N.min left (len c)).
+    destruct (N.eqb_spec n 0) as [En|_]; [unfold n in En; lia|].
+    assert (Hn : n <= len (wb_view w)) by (rewrite Hv, len_app; unfold n; lia).
+    destruct (wb_advance_law n w Hinv Hn) as (w1 & Ha & Hv1 & Hinv1). rewrite Ha.
+    assert (Hle1 : left - n <= len (wb_view w1)).
+    { rewrite Hv1, len_skipn. unfold n. lia. }
+    destruct (IH (left - n) w1 Hinv1 Hle1) as (w2 & E2 & Hv2 & Hinv2); [unfold n; lia|].
+    rewrite E2. exists w2. split; [|split; [|exact Hinv2]].
+    + f_equal. f_equal. rewrite Hv1.
+      assert (Hnc : (N.to_nat n <= length c)%nat) by (unfold n, len; lia).
+      replace (firstn (N.to_nat n) c) with (firstn (N.to_nat n) (wb_view w)).
+      2:{ rewrite Hv, firstn_app. replace (N.to_nat n - length c)%nat with 0%nat by lia. cbn [firstn]. apply app_nil_r. }
+      replace (N.to_nat left) with (N.to_nat n + N.to_nat (left - n))%nat by (unfold n; lia).
+      rewrite firstn_plus. reflexivity.
+    + rewrite Hv2, Hv1, skipn_skipn'. f_equal. unfold n. lia.
+Qed.
+
+Theorem wb_copy_to_bytes_exact k w :
+  wb_inv w -> k <= len (wb_view w) ->
+  exists w', wb_copy_to_bytes k w = Ok (firstn (N.to_nat k) (wb_view w), w') /\
+             wb_view w' = skipn (N.to_nat k) (wb_view w) /\ wb_inv w'.
+Proof.
+  intros Hinv Hk. unfold wb_copy_to_bytes. rewrite wb_remaining_law by exact Hinv.
+  destruct (N.ltb_spec (len (wb_view w)) k); [lia|]. apply wb_copy_loop_exact; auto. lia.
+Qed.
+
+Theorem wb_copy_to_bytes_too_much k w : wb_inv w -> len (wb_view w) < k -> wb_copy_to_bytes k w = Panic 36.
+Proof.
+  intros Hinv Hk. unfold wb_copy_to_bytes. rewrite wb_remaining_law by exact Hinv.
+  destruct (N.ltb_spec (len (wb_view w)) k); [reflexivity|lia].
+Qed.
